@@ -132,7 +132,7 @@ func runC08(c *Ctx, r *Rec) {
 			r.ok("D1-unordered-agreement", construct, c.pos(fd.Pos()), "no Equal verdict for unordered operands")
 		}
 	}
-	r.floor("D1-unordered-agreement", 2)
+	r.floor("D1-unordered-agreement", 1)
 
 	// ---- D2 size before content + mirror operands in the compare-side composites
 	ncomp := 0
